@@ -82,37 +82,39 @@ VtOk(o, g) == o = g \/ (o \in StrFamily /\ g \in StrFamily)
 
 NullPos(v) == {i \in DOMAIN v : v[i] = "~"}
 
+(* every element clause carries the element kind: "Values.uint8@prop"      *)
 ValueFails(o, g) ==
-  IF o.isnull # g.isnull THEN {"Values.null." \o o.type}
+  IF o.isnull # g.isnull THEN {"Values.null." \o o.type \o "@" \o o.et}
   ELSE IF Len(o.val) # Len(g.val) \/ NullPos(o.val) # NullPos(g.val)
-  THEN {"Values.nullentry." \o o.type}
-  ELSE F("Values." \o o.type, o.val = g.val)
+  THEN {"Values.nullentry." \o o.type \o "@" \o o.et}
+  ELSE F("Values." \o o.type \o "@" \o o.et, o.val = g.val)
 
 TypeFails(o, g) ==
-  F("Types." \o o.type,
+  F("Types." \o o.type \o "@" \o o.et,
     /\ o.type = g.type /\ o.arr = g.arr
     /\ Len(o.vt) = Len(g.vt)
     /\ \A i \in DOMAIN o.vt : i \in DOMAIN g.vt => VtOk(o.vt[i], g.vt[i]))
 
 ElemFails(o, g) ==
-  F("Names", o.et = g.et /\ o.lname = g.lname /\ o.sup = g.sup)
+  LET A(name, holds) == F(name \o "@" \o o.et, holds) IN
+  A("Names", o.et = g.et /\ o.lname = g.lname /\ o.sup = g.sup)
   \cup (IF o.kids = g.kids THEN {}
         ELSE IF Rng(o.kids) = Rng(g.kids) /\ Len(o.kids) = Len(g.kids)
-        THEN {"ChildOrder"} ELSE {"Names"})
+        THEN {"ChildOrder@" \o o.et} ELSE {"Names@" \o o.et})
   \cup TypeFails(o, g)
   \cup ValueFails(o, g)
-  \cup F("Attr.array_size", o.asize = g.asize)
-  \cup F("Attr.reference_class", o.rc = g.rc)
-  \cup F("Attr.class_origin", o.co = g.co)
-  \cup F("Attr.embedded_object", o.emb = g.emb)
-  \cup F("Attr.propagated", AttrOk(o.pg, g.pg, "F"))
-  \cup F("Attr.overridable", AttrOk(o.ovr, g.ovr, "T"))
-  \cup F("Attr.tosubclass", AttrOk(o.tsc, g.tsc, "T"))
-  \cup F("Attr.toinstance", AttrOk(o.tin, g.tin, "F"))
-  \cup F("Attr.translatable", AttrOk(o.trl, g.trl, "F"))
-  \cup F("Scopes", o.scopes = g.scopes)
-  \cup F("Path.host", o.host = g.host)
-  \cup F("Path.namespace", o.ns = g.ns)
+  \cup A("Attr.array_size", o.asize = g.asize)
+  \cup A("Attr.reference_class", o.rc = g.rc)
+  \cup A("Attr.class_origin", o.co = g.co)
+  \cup A("Attr.embedded_object", o.emb = g.emb)
+  \cup A("Attr.propagated", AttrOk(o.pg, g.pg, "F"))
+  \cup A("Attr.overridable", AttrOk(o.ovr, g.ovr, "T"))
+  \cup A("Attr.tosubclass", AttrOk(o.tsc, g.tsc, "T"))
+  \cup A("Attr.toinstance", AttrOk(o.tin, g.tin, "F"))
+  \cup A("Attr.translatable", AttrOk(o.trl, g.trl, "F"))
+  \cup A("Scopes", o.scopes = g.scopes)
+  \cup A("Path.host", o.host = g.host)
+  \cup A("Path.namespace", o.ns = g.ns)
 
 Paths(es) == {es[i].path : i \in DOMAIN es}
 AtPath(es, p) == es[CHOOSE i \in DOMAIN es : es[i].path = p]
